@@ -81,7 +81,21 @@ func vhSnapshot(s *Server) string {
 	})
 	s.hooks.Ascend(nil, func(v interface{}) bool {
 		h := v.(*Hook)
-		sb.WriteString("<" + h.Name + ">")
+		sb.WriteString("<" + h.Name)
+		if h.channel {
+			sb.WriteString("|chan")
+		}
+		sb.WriteString("|" + h.Key + "|" + strings.Join(h.Endpoints, ","))
+		for _, m := range h.Metas {
+			sb.WriteString("|" + m.Name + "=" + m.Value)
+		}
+		if !h.expires.IsZero() {
+			sb.WriteString("|@ttl")
+		}
+		if h.Message != nil {
+			sb.WriteString("|" + strings.Join(h.Message.Args, " "))
+		}
+		sb.WriteString(">")
 		return true
 	})
 	return sb.String()
